@@ -330,7 +330,7 @@ pub fn run(args: &Args) -> i32 {
          non-trivial = history in which at least one entry expired (dup) / at least one message left the window by shift and one IWANT succeeded (mcache); distinct by op history + parameters",
     );
     let tiny = args.extra.get("budget").is_some_and(|b| b == "tiny");
-    let n = if tiny { 24 } else { args.tier.pick(6_000u64, 300_000) };
+    let n = if tiny { 24 } else { args.tier.pick(6_000u64, 6_000_000) };
     let peers = [PeerId::random(), PeerId::random(), PeerId::random()];
     vmon::par_cases(&check, n, args.threads, |i, rng| {
         if i % 2 == 0 {
